@@ -4,7 +4,7 @@ from checks import _cl
 
 # the bookkeeping theorems of C04 (incl. the pinned crossing conventions of the regenerated swap helpers) are supporting
 # obligations: pricing, custody and fee accrual all read the active liquidity they maintain
-MODULES = ["SunriseVerif.Props.C02", "SunriseVerif.Props.C02Custody", "SunriseVerif.Props.C02Kernel", "SunriseVerif.Props.C02Refine", "SunriseVerif.Props.C02Swap", "SunriseVerif.Props.C04"]
+MODULES = ["SunriseVerif.Props.C02", "SunriseVerif.Props.C02Custody", "SunriseVerif.Props.C02Kernel", "SunriseVerif.Props.C02Refine", "SunriseVerif.Props.C02Swap", "SunriseVerif.Props.C02Swap2", "SunriseVerif.Props.C04"]
 
 
 def run(ctx):
